@@ -38,6 +38,20 @@ class OblResult:
     replay: dict | None = None
     finding: str | None = None
     smt_head: str = ""
+    failing: list = field(default_factory=list)  # conjuncts of the goal that are false in the counter-model
+
+
+def _failing_parts(goal, model):
+    """Which conjuncts of a refuted goal the counter-model falsifies (diagnosis only)."""
+    out = []
+    try:
+        parts = goal.children() if z3.is_and(goal) else [goal]
+        for p in parts:
+            if z3.is_false(model.eval(p, model_completion=True)):
+                out.append(str(p).replace("\n", " ")[:240])
+    except Exception:
+        pass
+    return out[:6]
 
 
 @dataclass
@@ -483,7 +497,7 @@ def verify_function(contract: Contract, registry: dict, known_ids=frozenset(), r
             while work:
                 decisions = work.pop()
                 path_id += 1
-                if path_id > MAX_PATHS:
+                if path_id > (contract.max_paths or MAX_PATHS):
                     raise OutOfSubset("path limit")
                 ex, outcome, args = run_path(fsrc, contract, registry, decisions, path_id, case)
                 work.extend(ex.pending)
@@ -503,6 +517,7 @@ def verify_function(contract: Contract, registry: dict, known_ids=frozenset(), r
                     else:
                         r.model = decode_inputs(model, ex.inputs)
                         r.model.update({k: v for k, v in case.items()})
+                        r.failing = _failing_parts(ob.goal, model)
                         # known finding? re-pose with the class predicate
                         hit = None
                         for fid, alt in getattr(ob, "alts", []):
